@@ -735,3 +735,67 @@ def stores(fn):
         if s["k"] == "assign" and s["dst"]["p"]:
             res.append((_shape_place(fn, s["dst"], 6, frozenset()), rv_shape(fn, s["rv"]), s))
     return res
+
+
+def displays_only(fn, op_or_local, what=r"p1\.inner"):
+    """Is the value the text of `Display` of exactly `what` (a shape regex): `x.to_string()` or a
+    `format!` whose template is a single default placeholder bound to `x`?"""
+    sh = shape(fn, op_or_local, depth=8)
+    if re.fullmatch(r"(?:\w+)?::to_string\(%s\)" % what, sh):
+        return True
+    m = re.fullmatch(r"(?:hint::must_use\()?fmt::format\(Arguments::new\(const, array\(Argument::new_display\(%s\)\)\)\)\)?" % what, sh)
+    if not m:
+        return False
+    for _, t in fn.calls():
+        if call_name(t).startswith("core::fmt::Arguments::<'a>::new") and t["args"]:
+            for o in operand_origins(fn, t["args"][0]):
+                if o.kind == "const" and o.node.get("bytes") is not None:
+                    tmpl = decode_fmt_template(o.node["bytes"])
+                    if len(tmpl) == 1 and tmpl[0][0] == "arg" and not tmpl[0][1].get("width") and not tmpl[0][1].get("alternate") and not tmpl[0][1].get("plus"):
+                        return True
+    return False
+
+
+def returns_is_ok_of(prog, fn, callee_suffix, arg_shape="p1"):
+    """Does `fn` return `true` exactly when the single call to `callee_suffix(arg)` returned Ok?
+    Accepts `.is_ok()` and a match on the result's discriminant storing true for Ok only."""
+    calls = [t for _, t in fn.calls() if call_name(t).endswith(callee_suffix)]
+    if len(calls) != 1 or shape(fn, calls[0]["args"][0], depth=4) != arg_shape:
+        return False
+    sh = shape(fn, 0, depth=6)
+    inner = "%s(%s)" % (short_name(call_name(calls[0])), arg_shape)
+    if sh == "Result::is_ok(%s)" % inner:
+        return True
+    # match form: switch on the discriminant of the call's result
+    dst = calls[0]["dst"]["l"]
+    for bb, b in fn.live_blocks():
+        t = b["term"]
+        if t["k"] != "switch":
+            continue
+        pl = lib.operand_place(t["op"])
+        if pl is None:
+            continue
+        src = None
+        for _, n in fn.defs_of(pl["l"]):
+            if n["k"] == "assign" and n["rv"]["k"] == "discr" and n["rv"]["pl"]["l"] == dst and not [x for x in n["rv"]["pl"]["p"] if x != "*"]:
+                src = n
+        if src is None:
+            continue
+        tg = dict(t["targets"])
+        ok_bb = tg.get(0, t["otherwise"])
+        other = [x for v, x in t["targets"] if v != 0] + ([t["otherwise"]] if 0 in tg else [])
+        def stored(start):
+            vals = set()
+            for x in reachable_blocks(fn, start):
+                for st in fn.blocks[x]["stmts"]:
+                    if st["k"] == "assign" and st["dst"]["l"] == 0 and not st["dst"]["p"] and st["rv"]["k"] == "use" and st["rv"]["op"].get("k") == "const":
+                        vals.add(st["rv"]["op"].get("bool"))
+            return vals
+        # blocks reached only through one arm: use dominance
+        ok_vals = {v for x in [y for y, _ in fn.live_blocks() if fn.dominates(ok_bb, y)] for st in fn.blocks[x]["stmts"] if st["k"] == "assign" and st["dst"]["l"] == 0 and st["rv"]["k"] == "use" and st["rv"]["op"].get("k") == "const" for v in [st["rv"]["op"].get("bool")]}
+        err_vals = set()
+        for o in other:
+            err_vals |= {v for x in [y for y, _ in fn.live_blocks() if fn.dominates(o, y)] for st in fn.blocks[x]["stmts"] if st["k"] == "assign" and st["dst"]["l"] == 0 and st["rv"]["k"] == "use" and st["rv"]["op"].get("k") == "const" for v in [st["rv"]["op"].get("bool")]}
+        if ok_vals == {True} and err_vals == {False}:
+            return True
+    return False
